@@ -6,6 +6,7 @@ import (
 	"os"
 	"reflect"
 	"runtime/metrics"
+	"strings"
 	"time"
 	"unsafe"
 
@@ -519,6 +520,26 @@ var schemaTokens = []string{`"fixed"`, `"array"`, `"map"`, `"enum"`, `"record"`,
 
 var retypeNames = []string{"null", "boolean", "int", "long", "float", "double", "bytes", "string", "fixed", "array", "map", "enum", "record", "union", "date"}
 
+// declaredNames lists every "name" value of the schema text in order of
+// appearance (record, fixed and field names alike).
+func declaredNames(js string) []string {
+	var out []string
+	const key = `"name":"`
+	for i := 0; ; {
+		j := strings.Index(js[i:], key)
+		if j < 0 {
+			return out
+		}
+		i += j + len(key)
+		e := strings.IndexByte(js[i:], '"')
+		if e < 0 {
+			return out
+		}
+		out = append(out, js[i:i+e])
+		i += e
+	}
+}
+
 // typeTokenSites lists the offsets of every quoted primitive type name in
 // schema text (the places where a field's type can be swapped for another).
 func typeTokenSites(js string) [][2]int {
@@ -557,6 +578,29 @@ func damageSchema(js string, f C06Fault) (string, string) {
 	}
 	b := []byte(js)
 	pos := int(f.Off) % len(b)
+	if f.Class == "nameref" {
+		// a field's type becomes a reference by name to a named type of the same
+		// schema — the enclosing record itself (a linked list, legal Avro), an
+		// earlier or a later definition, or a name that is only a field name.
+		names := declaredNames(js)
+		sites := typeTokenSites(js)
+		if len(names) > 0 && len(sites) > 0 {
+			st := sites[int(f.Off)%len(sites)]
+			nn := names[int(f.Site)%len(names)]
+			var tok string
+			switch f.Val % 4 {
+			case 0:
+				tok = `"` + nn + `"`
+			case 1:
+				tok = `["null","` + nn + `"]`
+			case 2:
+				tok = `{"type":"array","items":"` + nn + `"}`
+			default:
+				tok = `{"type":"map","values":["null","` + nn + `"]}`
+			}
+			return js[:st[0]] + tok + js[st[1]:], "schema:nameref:" + nn + fmt.Sprintf("/%d", f.Val%4)
+		}
+	}
 	if f.Class == "retype" || f.Val%6 == 5 {
 		sites := typeTokenSites(js)
 		if len(sites) > 0 {
@@ -752,6 +796,9 @@ func genC06Fault(r *Rng) C06Fault {
 	default:
 		f.Kind = "schema"
 		f.Len = r.Intn(64)
+		if r.P(1, 5) {
+			f.Class = "nameref"
+		}
 	}
 	return f
 }
@@ -988,6 +1035,11 @@ func c06EnumCases(a *c06Artifact, pl *C06Plan) []C06Case {
 	for si := range typeTokenSites(a.schemaJSON) {
 		for ni := range retypeNames {
 			cases = append(cases, C06Case{Faults: []C06Fault{{Kind: "schema", Class: "retype", Off: uint32(si), Site: uint32(ni)}}})
+		}
+	}
+	for si := range typeTokenSites(a.schemaJSON) {
+		for ni := range declaredNames(a.schemaJSON) {
+			cases = append(cases, C06Case{Faults: []C06Fault{{Kind: "schema", Class: "nameref", Off: uint32(si), Site: uint32(ni), Val: si + ni}}})
 		}
 	}
 	hs := headerSites(a.cont, a.file)
